@@ -154,6 +154,7 @@ func (o Op) modelLine() string {
 // ------------------------------------------------------------------ implementation runner
 
 type Runner struct {
+	disk    *aquadb.MemDatabase
 	db      state.Database
 	sts     map[int]*state.StateDB
 	commits []common.Hash
@@ -342,7 +343,8 @@ func (r *Runner) classify(sid int, a int64) string {
 }
 
 func newRunner() *Runner {
-	return &Runner{db: state.NewDatabase(aquadb.NewMemDatabase()), sts: map[int]*state.StateDB{}, orphan: map[orphanKey]orphanInfo{},
+	disk := aquadb.NewMemDatabase()
+	return &Runner{disk: disk, db: state.NewDatabase(disk), sts: map[int]*state.StateDB{}, orphan: map[orphanKey]orphanInfo{},
 		snaps: map[int][]snapHidden{}, finTrue: map[int]bool{}, lastFinB: map[int]int{}}
 }
 
@@ -637,9 +639,26 @@ type Checker struct {
 	g2m     map[common.Hash]string // Go root -> model content
 	m2g     map[string]common.Hash
 	nOracle map[string]int
+	nProbes int
+	nFam    map[string]int
 }
 
 var obsReq = ""
+
+// violate: known-class signatures pass through; signatures that embed a concrete history are capped
+// per oracle family (the first ones are kept as replays, the rest only counted) so that one defect
+// does not produce thousands of replay objects
+func (k *Checker) violate(sig, what string, replay interface{}) {
+	if i := strings.Index(sig, "/"); i > 0 {
+		fam := sig[:i]
+		k.nFam[fam]++
+		k.c.Count("violations-" + fam)
+		if k.nFam[fam] > 8 {
+			return
+		}
+	}
+	k.c.Violate(sig, what, replay)
+}
 
 func (k *Checker) rootCorr(cas string, root common.Hash, content string) {
 	obs := content
@@ -683,16 +702,18 @@ func (k *Checker) runProgram(class string, prog []Op, withModel bool) {
 			if sig == "" {
 				sig = fmt.Sprintf("%s/%d/%s", oracle, a, ptxt)
 			}
-			c.Violate(sig, fmt.Sprintf("%s (address %d)", what, a), replayObj(detail(a)))
+			k.violate(sig, fmt.Sprintf("%s (address %d)", what, a), replayObj(detail(a)))
 		}
 	}
 	nontriv := ""
+	firstDis := -1
 	for idx, o := range prog {
 		ans, root := r.apply(o)
 		st := r.sts[o.S]
 		if o.K == "copy" || o.K == "reopen" {
 			st = r.sts[o.Dst]
 		}
+		nd := c.Res.NDisagreements
 		if withModel {
 			mans := k.m.Ask(o.modelLine())
 			cas := fmt.Sprintf("%s @%d %s", ptxt, idx, o)
@@ -724,6 +745,9 @@ func (k *Checker) runProgram(class string, prog []Op, withModel bool) {
 				c.Correspond("StateDB getters+hidden state after every op~model obs", cas, fullObs(st), k.m.Ask(fmt.Sprintf("obs %d %s", sid, obsReq)))
 			}
 		}
+		if c.Res.NDisagreements > nd && firstDis < 0 {
+			firstDis = idx
+		}
 		if r.dead {
 			c.Count("program-ended-by-panic")
 			break
@@ -748,7 +772,7 @@ func (k *Checker) runProgram(class string, prog []Op, withModel bool) {
 					now := pubObs(st)
 					if now != l[i].obs {
 						sig := "revert-observable/" + ptxt // never a known class: histories end at the first K5 state
-						c.Violate(sig, "a public getter differs between Snapshot and RevertToSnapshot",
+						k.violate(sig, "a public getter differs between Snapshot and RevertToSnapshot",
 							replayObj(map[string]interface{}{"snapshot_at": l[i].opIdx, "revert_at": idx, "before": l[i].obs, "after": now}))
 					}
 					pairs = append(pairs, revPair{l[i].opIdx, idx, o.S})
@@ -759,7 +783,10 @@ func (k *Checker) runProgram(class string, prog []Op, withModel bool) {
 			}
 		case "finalise", "iroot", "commit":
 			live[o.S] = nil
+		case "reopen":
+			live[o.Dst] = nil
 		case "copy":
+			live[o.Dst] = nil
 			// O4
 			k.nOracle["O4"]++
 			src, dst := r.sts[o.S], r.sts[o.Dst]
@@ -773,7 +800,7 @@ func (k *Checker) runProgram(class string, prog []Op, withModel bool) {
 				return map[string]interface{}{"at": idx, "address": a, "original": pubAddr(src, a), "copy": pubAddr(dst, a)}
 			})
 			if pubTail(src) != pubTail(dst) {
-				c.Violate("copy-obs-tail/"+ptxt, "Copy() differs in refund/logs/preimages", replayObj(map[string]interface{}{"at": idx, "original": pubTail(src), "copy": pubTail(dst)}))
+				k.violate("copy-obs-tail/"+ptxt, "Copy() differs in refund/logs/preimages", replayObj(map[string]interface{}{"at": idx, "original": pubTail(src), "copy": pubTail(dst)}))
 			}
 		}
 		if o.K == "iroot" || o.K == "commit" {
@@ -803,9 +830,15 @@ func (k *Checker) runProgram(class string, prog []Op, withModel bool) {
 		if o.K == "commit" {
 			// O5: reopen at the committed root reads back identically
 			k.nOracle["O5"]++
-			re, err := state.New(root, r.db)
+			// flush the committed trie (and the code it references) to the underlying key-value store and
+			// read it back through a brand-new state.Database: no shared trie-node, code or code-size cache
+			var re *state.StateDB
+			err := r.db.TrieDB().Commit(root, false)
+			if err == nil {
+				re, err = state.New(root, state.NewDatabase(r.disk))
+			}
 			if err != nil {
-				c.Violate("reopen-fails/"+ptxt, "state.New at a committed root fails: "+err.Error(), replayObj(nil))
+				k.violate("reopen-fails/"+ptxt, "state.New at a committed root fails: "+err.Error(), replayObj(nil))
 			} else {
 				x, y := persObs(st), persObs(re)
 				diff := []int64{}
@@ -831,7 +864,7 @@ func (k *Checker) runProgram(class string, prog []Op, withModel bool) {
 			}
 		}
 		if k5 {
-			c.Violate(sigK5, "a state object deleted by Finalise(true) was written back into the account trie by a later Finalise/Commit(false): getters say it does not exist, the root says it does",
+			k.violate(sigK5, "a state object deleted by Finalise(true) was written back into the account trie by a later Finalise/Commit(false): getters say it does not exist, the root says it does",
 				replayObj(map[string]interface{}{"at": idx}))
 			c.Count("program-ended-by-rewritten-deleted-object")
 			prog = prog[:idx+1]
@@ -845,6 +878,42 @@ func (k *Checker) runProgram(class string, prog []Op, withModel bool) {
 	// --- O2: revert neutrality by replay (implementation only)
 	for _, pr := range pairs {
 		k.checkNeutral(prog, pr.i, pr.j, pr.sid, ptxt)
+	}
+	// --- model and implementation disagreed somewhere in this history: before giving up, push the
+	// implementation from exactly that point to where a hidden difference must show through a public
+	// API (revert to the live snapshots, one more write, Commit + reopen through a fresh database)
+	// and evaluate every oracle on those extended histories
+	if withModel && firstDis >= 0 && k.nProbes < 40 {
+		k.nProbes++
+		k.probe(prog, firstDis)
+	}
+}
+
+func (k *Checker) probe(prog []Op, d int) {
+	rp := replay(prog, d)
+	if rp == nil {
+		return
+	}
+	o := prog[d]
+	sid := o.S
+	if o.K == "copy" || o.K == "reopen" {
+		sid = o.Dst
+	}
+	if rp.sts[sid] == nil {
+		return
+	}
+	flag := rp.lastFinB[sid] != 1
+	commit := Op{K: "commit", S: sid, B: flag}
+	sufs := [][]Op{{commit}, {{K: "iroot", S: sid, B: flag}, commit}}
+	if o.A != 0 {
+		sufs = append(sufs, []Op{{K: "addbal", S: sid, A: o.A, V: "1"}, commit})
+	}
+	if l := rp.snaps[sid]; len(l) > 0 {
+		sufs = append(sufs, []Op{{K: "revert", S: sid, Id: l[0].id}, commit}, []Op{{K: "revert", S: sid, Id: l[len(l)-1].id}, commit})
+	}
+	for _, suf := range sufs {
+		p := append(append([]Op{}, prog[:d+1]...), suf...)
+		k.runProgram("probe-after-disagreement", p, false)
 	}
 }
 
@@ -860,7 +929,6 @@ func replay(prog []Op, upto int) *Runner {
 }
 
 func (k *Checker) checkNeutral(prog []Op, i, j, sid int, ptxt string) {
-	c := k.c
 	conts := []int64{0}
 	conts = append(conts, addrs...)
 	for _, b := range []bool{true, false} {
@@ -892,7 +960,7 @@ func (k *Checker) checkNeutral(prog []Op, i, j, sid int, ptxt string) {
 			pb, _ := vh.CatchPanic(func() { rootB = sb.IntermediateRoot(b) })
 			if pa || pb {
 				if pa != pb {
-					c.Violate("revert-neutral-panic/"+ptxt, "IntermediateRoot panics on only one side of a revert", map[string]interface{}{"program": prog, "text": ptxt, "snapshot_at": i, "revert_at": j})
+					k.violate("revert-neutral-panic/"+ptxt, "IntermediateRoot panics on only one side of a revert", map[string]interface{}{"program": prog, "text": ptxt, "snapshot_at": i, "revert_at": j})
 				}
 				continue
 			}
@@ -941,7 +1009,7 @@ func (k *Checker) checkNeutral(prog []Op, i, j, sid int, ptxt string) {
 				if sig == "" {
 					sig = fmt.Sprintf("revert-neutral/%v/%d/%d-%d/%d/%s", b, w, i, j, bad, ptxt)
 				}
-				c.Violate(sig, fmt.Sprintf("IntermediateRoot(%v) after [ops up to the snapshot%s] differs from IntermediateRoot after [ops through the revert%s]: address %d leaf %s vs %s",
+				k.violate(sig, fmt.Sprintf("IntermediateRoot(%v) after [ops up to the snapshot%s] differs from IntermediateRoot after [ops through the revert%s]: address %d leaf %s vs %s",
 					b, contS(w), contS(w), bad, leafStr(sa, bad), leafStr(sb, bad)),
 					map[string]interface{}{"program": prog, "text": ptxt, "snapshot_at": i, "revert_at": j, "delete_empty": b, "continuation_addbalance_1_to": w,
 						"root_without_the_reverted_ops": rootA.Hex(), "root_with_them": rootB.Hex()})
@@ -995,6 +1063,15 @@ func genValue(r *vh.RNG) string {
 	}
 }
 
+// code blobs: a few fixed ones (so that identical code meets on different accounts) and fresh random
+// ones (so that the first Commit of a blob is often the only thing that can put it into the database)
+func genCode(r *vh.RNG) string {
+	if r.Chance(45) {
+		return vh.Hex(append([]byte{0x60}, r.Bytes(1+r.Intn(3))...))
+	}
+	return []string{"0x", "0x00", "0x6001600255", "0xfe"}[r.Intn(4)]
+}
+
 func genBody(r *vh.RNG, n int, prog []Op) []Op {
 	alive := []int{0}
 	nextSid := 1
@@ -1009,9 +1086,80 @@ func genBody(r *vh.RNG, n int, prog []Op) []Op {
 		}
 		return r.Chance(60)
 	}
+	snap := func(s int) int64 {
+		prog = append(prog, Op{K: "snapshot", S: s})
+		id := nextId[s]
+		liveIds[s] = append(liveIds[s], id)
+		nextId[s]++
+		return id
+	}
+	revertTo := func(s int, id int64) {
+		prog = append(prog, Op{K: "revert", S: s, Id: id})
+		l := liveIds[s]
+		for i := range l {
+			if l[i] == id {
+				liveIds[s] = l[:i]
+				break
+			}
+		}
+	}
 	for len(prog) < n {
 		s := alive[r.Intn(len(alive))]
 		a := addrs[r.Intn(len(addrs))]
+		if r.Chance(14) {
+			// ---- macro patterns: what a subtle journal / write-cache bug needs
+			k := slots[r.Intn(len(slots))]
+			if r.Chance(55) { // the contract of the prelude: slots 1 and 2 are trie-backed, it has committed code
+				a, k = 2, int64(1+r.Intn(2))
+			}
+			nz := func() string { return fmt.Sprint(1 + r.Intn(40)) }
+			switch r.Intn(9) {
+			case 0: // clear a (possibly trie-backed) slot, then overwrite it inside a reverted region
+				prog = append(prog, Op{K: "setstate", S: s, A: a, Key: k, V: "0"})
+				id := snap(s)
+				prog = append(prog, Op{K: "setstate", S: s, A: a, Key: k, V: nz()})
+				revertTo(s, id)
+			case 1: // X -> snapshot -> Y -> revert -> X (storage)
+				v := genValue(r)
+				prog = append(prog, Op{K: "setstate", S: s, A: a, Key: k, V: v})
+				id := snap(s)
+				prog = append(prog, Op{K: "setstate", S: s, A: a, Key: k, V: genValue(r)})
+				revertTo(s, id)
+				prog = append(prog, Op{K: "setstate", S: s, A: a, Key: k, V: v})
+			case 2: // X -> snapshot -> Y -> revert -> X (code)
+				c := genCode(r)
+				prog = append(prog, Op{K: "setcode", S: s, A: a, Code: c})
+				id := snap(s)
+				prog = append(prog, Op{K: "setcode", S: s, A: a, Code: genCode(r)})
+				revertTo(s, id)
+				prog = append(prog, Op{K: "setcode", S: s, A: a, Code: c})
+			case 3: // the same code twice
+				c := genCode(r)
+				prog = append(prog, Op{K: "setcode", S: s, A: a, Code: c}, Op{K: "setcode", S: s, A: a, Code: c})
+			case 4: // the same storage value twice
+				v := genValue(r)
+				prog = append(prog, Op{K: "setstate", S: s, A: a, Key: k, V: v}, Op{K: "setstate", S: s, A: a, Key: k, V: v})
+			case 5: // the same nonce / balance twice, once inside a reverted region
+				v := nz()
+				prog = append(prog, Op{K: "setnonce", S: s, A: a, V: v}, Op{K: "setbal", S: s, A: a, V: v})
+				id := snap(s)
+				prog = append(prog, Op{K: "setnonce", S: s, A: a, V: v}, Op{K: "setbal", S: s, A: a, V: v})
+				revertTo(s, id)
+			case 6, 7: // make everything trie-backed: Commit, then continue on a StateDB re-opened at that root
+				prog = append(prog, Op{K: "commit", S: s, B: flag()})
+				ncommits++
+				prog = append(prog, Op{K: "reopen", Id: int64(ncommits - 1), Dst: s})
+				liveIds[s], nextId[s] = nil, 0
+			case 8: // flush to the storage trie without committing, then clear inside a reverted region
+				prog = append(prog, Op{K: "setstate", S: s, A: a, Key: k, V: nz()}, Op{K: "iroot", S: s, B: flag()})
+				liveIds[s] = nil
+				prog = append(prog, Op{K: "setstate", S: s, A: a, Key: k, V: "0"})
+				id := snap(s)
+				prog = append(prog, Op{K: "setstate", S: s, A: a, Key: k, V: nz()})
+				revertTo(s, id)
+			}
+			continue
+		}
 		x := r.Intn(100)
 		switch {
 		case x < 6:
@@ -1032,7 +1180,7 @@ func genBody(r *vh.RNG, n int, prog []Op) []Op {
 		case x < 35:
 			prog = append(prog, Op{K: "setnonce", S: s, A: a, V: []string{"0", "1", "7", "18446744073709551615"}[r.Intn(4)]})
 		case x < 40:
-			prog = append(prog, Op{K: "setcode", S: s, A: a, Code: []string{"0x", "0x00", "0x6001600255", "0xfe"}[r.Intn(4)]})
+			prog = append(prog, Op{K: "setcode", S: s, A: a, Code: genCode(r)})
 		case x < 51:
 			prog = append(prog, Op{K: "setstate", S: s, A: a, Key: slots[r.Intn(len(slots))], V: genValue(r)})
 		case x < 56:
@@ -1093,16 +1241,20 @@ func directed() map[string][]Op {
 		{K: "commit", B: false}, {K: "reopen", Id: 0, Dst: 0}}
 	mk := func(ops ...Op) []Op { return append(append([]Op{}, pre...), ops...) }
 	return map[string][]Op{
-		"reverted-transfer-to-empty-account": mk(Op{K: "snapshot"}, Op{K: "addbal", A: 4, V: "5"}, Op{K: "revert", Id: 0}, Op{K: "iroot", B: true}),
-		"reverted-touch-of-empty-account":    mk(Op{K: "snapshot"}, Op{K: "addbal", A: 4, V: "0"}, Op{K: "revert", Id: 0}, Op{K: "addbal", A: 4, V: "9"}, Op{K: "iroot", B: true}),
-		"reverted-touch-of-ripemd":           mk(Op{K: "snapshot"}, Op{K: "addbal", A: 3, V: "0"}, Op{K: "revert", Id: 0}, Op{K: "iroot", B: true}),
-		"write-after-commit":                 mk(Op{K: "addbal", A: 1, V: "1"}, Op{K: "commit", B: true}, Op{K: "addbal", A: 1, V: "1"}, Op{K: "commit", B: true}),
-		"write-after-commit-copy":            mk(Op{K: "setnonce", A: 1, V: "3"}, Op{K: "commit", B: true}, Op{K: "setnonce", A: 1, V: "4"}, Op{K: "copy", Dst: 1}, Op{K: "iroot", S: 1, B: true}),
-		"recreate-across-suicide":            mk(Op{K: "snapshot"}, Op{K: "suicide", A: 2}, Op{K: "create", A: 2}, Op{K: "setstate", A: 2, Key: 1, V: "9"}, Op{K: "snapshot"}, Op{K: "setcode", A: 2, Code: "0xfe"}, Op{K: "revert", Id: 1}, Op{K: "revert", Id: 0}, Op{K: "iroot", B: true}),
-		"finalise-true-then-false":           mk(Op{K: "addbal", A: 4, V: "0"}, Op{K: "iroot", B: true}, Op{K: "iroot", B: false}),
-		"copy-then-reverted-touch":           mk(Op{K: "setstate", A: 4, Key: 1, V: "3"}, Op{K: "copy", Dst: 1}, Op{K: "snapshot", S: 1}, Op{K: "addbal", S: 1, A: 4, V: "0"}, Op{K: "revert", S: 1, Id: 0}, Op{K: "iroot", S: 1, B: false}, Op{K: "iroot", B: false}),
-		"nested-reverts":                     mk(Op{K: "snapshot"}, Op{K: "setstate", A: 2, Key: 1, V: "0"}, Op{K: "snapshot"}, Op{K: "addlog", V: "5"}, Op{K: "addrefund", V: "7"}, Op{K: "snapshot"}, Op{K: "suicide", A: 1}, Op{K: "revert", Id: 2}, Op{K: "create", A: 5}, Op{K: "revert", Id: 0}, Op{K: "commit", B: true}),
-		"negative-balance-panics":            mk(Op{K: "subbal", A: 5, V: "1"}, Op{K: "iroot", B: false}),
+		"reverted-transfer-to-empty-account":                mk(Op{K: "snapshot"}, Op{K: "addbal", A: 4, V: "5"}, Op{K: "revert", Id: 0}, Op{K: "iroot", B: true}),
+		"reverted-touch-of-empty-account":                   mk(Op{K: "snapshot"}, Op{K: "addbal", A: 4, V: "0"}, Op{K: "revert", Id: 0}, Op{K: "addbal", A: 4, V: "9"}, Op{K: "iroot", B: true}),
+		"reverted-touch-of-ripemd":                          mk(Op{K: "snapshot"}, Op{K: "addbal", A: 3, V: "0"}, Op{K: "revert", Id: 0}, Op{K: "iroot", B: true}),
+		"write-after-commit":                                mk(Op{K: "addbal", A: 1, V: "1"}, Op{K: "commit", B: true}, Op{K: "addbal", A: 1, V: "1"}, Op{K: "commit", B: true}),
+		"write-after-commit-copy":                           mk(Op{K: "setnonce", A: 1, V: "3"}, Op{K: "commit", B: true}, Op{K: "setnonce", A: 1, V: "4"}, Op{K: "copy", Dst: 1}, Op{K: "iroot", S: 1, B: true}),
+		"recreate-across-suicide":                           mk(Op{K: "snapshot"}, Op{K: "suicide", A: 2}, Op{K: "create", A: 2}, Op{K: "setstate", A: 2, Key: 1, V: "9"}, Op{K: "snapshot"}, Op{K: "setcode", A: 2, Code: "0xfe"}, Op{K: "revert", Id: 1}, Op{K: "revert", Id: 0}, Op{K: "iroot", B: true}),
+		"finalise-true-then-false":                          mk(Op{K: "addbal", A: 4, V: "0"}, Op{K: "iroot", B: true}, Op{K: "iroot", B: false}),
+		"copy-then-reverted-touch":                          mk(Op{K: "setstate", A: 4, Key: 1, V: "3"}, Op{K: "copy", Dst: 1}, Op{K: "snapshot", S: 1}, Op{K: "addbal", S: 1, A: 4, V: "0"}, Op{K: "revert", S: 1, Id: 0}, Op{K: "iroot", S: 1, B: false}, Op{K: "iroot", B: false}),
+		"nested-reverts":                                    mk(Op{K: "snapshot"}, Op{K: "setstate", A: 2, Key: 1, V: "0"}, Op{K: "snapshot"}, Op{K: "addlog", V: "5"}, Op{K: "addrefund", V: "7"}, Op{K: "snapshot"}, Op{K: "suicide", A: 1}, Op{K: "revert", Id: 2}, Op{K: "create", A: 5}, Op{K: "revert", Id: 0}, Op{K: "commit", B: true}),
+		"clear-of-trie-backed-slot-then-reverted-overwrite": mk(Op{K: "setstate", A: 2, Key: 1, V: "0"}, Op{K: "snapshot"}, Op{K: "setstate", A: 2, Key: 1, V: "9"}, Op{K: "revert", Id: 0}, Op{K: "commit", B: true}),
+		"clear-of-flushed-slot-then-reverted-overwrite":     mk(Op{K: "setstate", A: 1, Key: 3, V: "5"}, Op{K: "iroot", B: true}, Op{K: "setstate", A: 1, Key: 3, V: "0"}, Op{K: "snapshot"}, Op{K: "setstate", A: 1, Key: 3, V: "6"}, Op{K: "revert", Id: 0}, Op{K: "commit", B: true}),
+		"same-code-twice-then-commit":                       mk(Op{K: "setcode", A: 5, Code: "0x60aabb"}, Op{K: "setcode", A: 5, Code: "0x60aabb"}, Op{K: "commit", B: true}),
+		"code-x-y-revert-x-then-commit":                     mk(Op{K: "setcode", A: 5, Code: "0x60aacc"}, Op{K: "snapshot"}, Op{K: "setcode", A: 5, Code: "0xfe"}, Op{K: "revert", Id: 0}, Op{K: "setcode", A: 5, Code: "0x60aacc"}, Op{K: "commit", B: true}, Op{K: "reopen", Id: 1, Dst: 0}, Op{K: "setstate", A: 5, Key: 0, V: "1"}, Op{K: "commit", B: true}),
+		"negative-balance-panics":                           mk(Op{K: "subbal", A: 5, V: "1"}, Op{K: "iroot", B: false}),
 	}
 }
 
@@ -1114,7 +1266,7 @@ func main() {
 	c.Res.Rule = "a case is one history: prelude (accounts incl. pre-existing EMPTY ones, a contract with code+storage, the ripemd address, a suicided account; Commit(false); reopen) " +
 		"followed by 25-60 random ops over 6 addresses x 4 slots on up to 4 StateDBs (writes, nested Snapshot, RevertToSnapshot to any live id, Finalise/IntermediateRoot/Commit(true|false), Copy, reopen at any committed root); " +
 		"after EVERY op all getters + hidden state (dirty set, onDirty armed, deleted, touched, dirtyStorage, journal length, revisions) are compared with the model; non-trivial = contains at least one valid revert or finalise; distinct by op text"
-	k := &Checker{c: c, m: m, g2m: map[common.Hash]string{}, m2g: map[string]common.Hash{}, nOracle: map[string]int{}}
+	k := &Checker{c: c, m: m, g2m: map[common.Hash]string{}, m2g: map[string]common.Hash{}, nOracle: map[string]int{}, nFam: map[string]int{}}
 	// Keccak of the model is the hash the implementation uses
 	for _, x := range [][]byte{{}, {0x60, 0x01}, c.Rng.Bytes(137)} {
 		c.Correspond("crypto.Keccak256~Lib.Keccak.keccak256", vh.Hex(x), vh.Hex(crypto.Keccak256(x)), m.Ask("keccak "+vh.Hex(x)))
@@ -1148,7 +1300,7 @@ func main() {
 		k.runProgram("directed/"+n, d[n], true)
 		c.Sample(map[string]string{"directed": n, "history": progString(d[n])})
 	}
-	nprog := c.Scale(260, 6000)
+	nprog := c.Scale(220, 6000)
 	for i := 0; i < nprog; i++ {
 		r := c.Rng.Fork()
 		p := prelude(r)
